@@ -73,10 +73,97 @@ def replay_case(case):
     return bad, len(set(combos))
 
 
+# ------------------------------------------------------------------ contrast-coded factors (coding matrices from Contrasts.tla)
+def replay_contrast(case):
+    """One (contrast, options, n) of MC_Contrasts: `C(g, contr...) + x` with and without an intercept on every
+    entry point x output x materializer; expected cells = [1 | coding row of the level | x] from the model's exact matrix."""
+    import warnings
+
+    import numpy
+    import pandas
+    import pyarrow
+
+    from . import c11
+
+    n = case["n"]
+    if case["kind"] == "matrix":
+        o = case["o"]
+        levels = [f"l{i}" for i in range(1, n + 1)]
+        C = c11.fl(case["coding"]) if n > 1 else numpy.zeros((n, 0))
+        cexpr = c11.expr(o, levels)
+        red_names = [case["prefix"] + levels[j - 1] for j in case["collevels"]]
+    else:   # polynomial contrasts with the default scores
+        o = {"name": "poly"}
+        levels = [f"l{i}" for i in range(n)]
+        M = c11.fl(case["monic"])
+        C = M / numpy.sqrt(numpy.array([x[0] / x[1] for x in case["norm2"]]))
+        cexpr = "contr.poly"
+        red_names = [".L", ".Q", ".C", "^4", "^5", "^6"][: n - 1]
+    order = [(3 * i + 1) % n for i in range(n)] + [0, n - 1]
+    if sorted(set(order)) != list(range(n)):
+        order = list(range(n)) + [0, n - 1]
+    g = [levels[i] for i in order]
+    x = [float(2 * i - 3) for i in range(len(g))]
+    df = pandas.DataFrame({"g": pandas.Series(g, dtype=object), "x": x})
+    tb = pyarrow.Table.from_pandas(df)
+    term = f"C(g, {cexpr}, levels={levels!r})"
+    rows = numpy.array([C[levels.index(v)] for v in g], dtype=float).reshape(len(g), C.shape[1])
+    full = numpy.array([[1.0 if levels.index(v) == j else 0.0 for j in range(n)] for v in g])
+    xs = numpy.array(x).reshape(-1, 1)
+    variants = [(f"{term} + x", numpy.hstack([numpy.ones((len(g), 1)), rows, xs]), ["Intercept"] + [f"{term}[{c}]" for c in red_names] + ["x"]),
+                (f"0 + {term} + x", numpy.hstack([full, xs]), [f"{term}[{v}]" for v in levels] + ["x"])]
+    bad, cnt = [], 0
+    for formula, exp, names in variants:
+        for path, output, mat in ALL:
+            cnt += 1
+            base = {"formula": formula, "fid": f"contrast-n{n}", "path": path, "output": output, "materializer": mat, "full_rank": True, "na": "drop", "cluster": False,
+                    "contrast": o}
+            try:
+                with warnings.catch_warnings():
+                    warnings.simplefilter("ignore")
+                    mm = build(formula, tb if mat == "narwhals-arrow" else df, path, output, mat, {"full_rank": True, "na": "drop", "cluster": False})
+                arr = mm.toarray() if hasattr(mm, "toarray") else numpy.asarray(mm, dtype=float)
+                got = [c.replace('"', "'") for c in mm.model_spec.column_names]
+                if got != [c.replace('"', "'") for c in names]:
+                    bad.append({**base, "why": "column names", "observed": got, "expected": names})
+                elif arr.shape != exp.shape or not numpy.allclose(arr, exp, rtol=1e-10, atol=1e-12):
+                    bad.append({**base, "why": "cells", "observed": arr.tolist(), "expected": exp.tolist()})
+            except Exception as e:  # noqa
+                bad.append({**base, "why": "exception", "observed": type(e).__name__ + ": " + str(e)[:200]})
+    return bad, cnt
+
+
+def contrast_leg(ctx: Ctx, maxn: int):
+    from ..tlc import MachineryError, read_emitted, run_tlc, workdir
+
+    out = workdir("c05") / "contrasts.ndjson"
+    out.unlink(missing_ok=True)
+    r = run_tlc("MC_Contrasts", f"SPECIFICATION Spec\nCONSTANTS\n  MaxN = {maxn}\n  MaxPolyN = {min(maxn, 5)}\n  Emit = TRUE\nINVARIANT Laws\nINVARIANT EmitCase\n", tag="c05c",
+                env={"OUT_FILE": str(out)}, timeout=3000)
+    if r.violated:
+        ctx.model_violation(r, "MC_Contrasts")
+    ctx.add_tlc(r, f"contrast coding matrices in exact rationals for the output/entry-point/materializer agreement leg; n <= {maxn}")
+    cases = read_emitted(out)
+    out.unlink()
+    if len(cases) != r.distinct:
+        raise MachineryError(f"emission incomplete: {len(cases)} of {r.distinct}")
+    use = [c for c in cases if (c["kind"] == "matrix" and c["n"] >= 2) or
+           (c["kind"] == "poly" and [tuple(s) for s in c["scores"]] == [(i, 1) for i in range(c["n"])])]
+    if len(use) < 10:
+        raise MachineryError("contrast leg: too few usable cases")
+    res = pmap("harness.props.c05", "replay_contrast", use, chunk=2)
+    for c, (bad, n) in zip(use, res):
+        ctx.traces += n
+        ctx.evaluations += n
+        ctx.nontrivial.add(jhash(["contrast", c["kind"], c["n"], c.get("o")]))
+        for b in bad:
+            ctx.violation({k: b[k] for k in ("formula", "fid", "path", "output", "materializer", "full_rank", "na", "cluster")}, b, kind="replay")
+
+
 def run(ctx: Ctx) -> None:
     global FRAMES, PER_CASE
     ctx.rule = ("the (formula, frame, options) enumeration of MC_Materialize; per case 6 (quick) or all 36 (thorough, 1/4 slice) combinations of entry "
-                "point x output x materializer/data form, rotated so that every combination is exercised; non-trivial = >= 2 columns, >= 2 rows")
+                "point x output x materializer/data form, rotated so that every combination is exercised; every contrast coding of MC_Contrasts (n <= 4 / 6) on all 36 combinations; non-trivial = >= 2 columns, >= 2 rows")
     ctx.trusted = ["gamma (incl. pyarrow.Table.from_pandas) / alpha of the materializer family", "TLC"]
     if ctx.quick:
         PER_CASE = 6
@@ -98,6 +185,7 @@ def run(ctx: Ctx) -> None:
         ctx.sample({"formula": matlib.render_formula(c["written"], c["icpt"]), "frame": c["fid"], "names": c["names"], "cells": c["cells"],
                     "executed_on": "entry points x outputs x materializers"})
     ctx.exhaustive = True
+    contrast_leg(ctx, 4 if ctx.quick else 6)
     # leg T: random cases on random (entry point, output, materializer) combinations, validated by TLC
     from .. import mattrace
 
